@@ -36,12 +36,15 @@ def plan(tier, seed):
     seqs = [list(s) for r in range(1, k + 1) for s in itertools.product(range(npool), repeat=r)]
     for i in range(0, len(seqs), 40):
         chunks.append({'kind': 'banks', 'seqs': seqs[i:i + 40]})
+    chunks.insert(0, {'kind': 'volume', 'nsent': 5600 if tier == 'quick' else 12000})
     return {
         'chunks': chunks,
         'rule': 'every hierarchy over n tokens with up to u unary insertions: per-node gap degree, blocks, '
                 'tree degree, the three notions of discontinuity, disco_order on binary shapes (both modes); '
                 'every sequence of up to %d trees from a %d-tree pool through the three analysis tasks via '
-                'API and CLI. non-trivial = distinct trees/treebanks containing a node of gap degree >= 1'
+                'API and CLI (on every other treebank each command-line run follows an aborted run of the same task); '
+                'one volume probe outside the bound (a file of 112 000 / 240 000 tokens through the three tasks). '
+                'non-trivial = distinct trees/treebanks containing a node of gap degree >= 1'
                 % (k, npool),
         'bound': ', '.join('n=%d:u<=%d' % s for s in specs) + '; treebanks of <= %d trees' % k,
         'exhaustive': True,
@@ -277,8 +280,23 @@ def check_bank(seq):
         ok = [{k: expected_reports(b)[k] for k in ('trees', 'nodes', 'per_tree', 'per_node')} for b in (batch2, mts + batch2)]
         if second is not None and second not in ok:
             bad('GapDegree report after run, done, run, done on one task object', ok, second)
-        # CLI
-        st, so, se, exc = cli.run(['treeanalysis', path, 'GapDegree'] + fmtargs)
+        # CLI.  On every other bank each run is preceded by a run of the same task that is aborted half-way: the
+        # same sentences followed by one the reader must reject (whatever that run does, the next one starts afresh)
+        aborted = None
+        if sum(seq) % 2 == 0:
+            aborted = os.path.join(scratch(), 'cut.' + srcfmt)
+            with open(path, encoding='utf-8') as f:
+                text = f.read()
+            with open(aborted, 'w', encoding='utf-8') as f:
+                f.write({'export': text + '#BOS 99\nw\t\t\tX\t--\t\t--\t1000\n#EOS 99\n',
+                         'tigerxml': text[:2 * len(text) // 3],
+                         'discobrackets': text + '(VROOT (X 0=oops'}[srcfmt])
+
+        def run_task(name, extra=()):
+            if aborted is not None:
+                cli.run(['treeanalysis', aborted, name] + fmtargs + list(extra))
+            return cli.run(['treeanalysis', path, name] + fmtargs + list(extra))
+        st, so, se, exc = run_task('GapDegree')
         rep = parse_gap_report(so)
         if st != 0 or rep is None:
             bad('cli GapDegree status/report', 0, (st, cli.describe(exc), so[-200:]))
@@ -290,16 +308,16 @@ def check_bank(seq):
                 bad('cli GapDegree sums', (rep['trees'], rep['nodes']), rep)
         if srcfmt == 'discobrackets':
             # a reader option must reach the reader: in bracket order every node is one block
-            st, so, se, exc = cli.run(['treeanalysis', path, 'GapDegree'] + fmtargs + ['--src-opts', 'disco_reordered'])
+            st, so, se, exc = run_task('GapDegree', ['--src-opts', 'disco_reordered'])
             rep = parse_gap_report(so)
             want = {'trees': exp['trees'], 'nodes': exp['nodes'], 'per_tree': {0: exp['trees']}, 'per_node': {0: exp['nodes']}}
             if st != 0 or rep != want:
                 bad('cli GapDegree --src-opts disco_reordered', want, (st, cli.describe(exc), rep))
-        st, so, se, exc = cli.run(['treeanalysis', path, 'SentenceCount'] + fmtargs)
+        st, so, se, exc = run_task('SentenceCount')
         m = re.search(r'^(\d+) sentences$', so, re.M)
         if st != 0 or not m or int(m.group(1)) != len(mts):
             bad('cli SentenceCount', len(mts), (st, cli.describe(exc), so[-100:]))
-        st, so, se, exc = cli.run(['treeanalysis', path, 'PosTags'] + fmtargs)
+        st, so, se, exc = run_task('PosTags')
         m = re.search(r'^(\d+) different tags$', so, re.M)
         if st != 0 or not m or int(m.group(1)) != exp['tags']:
             bad('cli PosTags', exp['tags'], (st, cli.describe(exc), so[-100:]))
@@ -309,8 +327,53 @@ def check_bank(seq):
     return out
 
 
+def check_volume(nsent):
+    """Volume probe (outside the exhaustive bound): one export file of nsent sentences of 20 tokens through the three
+    analysis tasks of the command line.  Three tags occur in one sentence only (first, middle, last); every second
+    sentence holds a node of gap degree 1."""
+    shapes = [tuple(range(1, 21)), ((1, 3), 2) + tuple(range(4, 21))]
+    mts = []
+    for i in range(nsent):
+        pos = ['T%d' % (j % 6) for j in range(20)]
+        if i in (0, nsent // 2, nsent - 1):
+            pos[7] = {0: 'FIRST', nsent // 2: 'MID', nsent - 1: 'LAST'}[i]
+        mts.append(model.simple_mt(shapes[i % 2], sid=i + 1, pos=pos))
+    exp = expected_reports(mts)
+    out = []
+    case = {'volume': nsent}
+
+    def bad(where, e, g):
+        out.append({'kind': 'report-mismatch', 'where': where, 'case': case,
+                    'detail': '%s: expected %r, got %r for a file of %d sentences / %d tokens' % (where, e, g, nsent, 20 * nsent),
+                    'what': where + ' report disagrees with the treebank (volume probe)'})
+    path = os.path.join(scratch(), 'volume.export')
+    with open(path, 'w', encoding='utf-8') as f:
+        f.write(codecs.encode_export(mts))
+    try:
+        st, so, se, exc = cli.run(['treeanalysis', path, 'GapDegree', '--src-format', 'export'])
+        rep = parse_gap_report(so)
+        want = {k: exp[k] for k in ('trees', 'nodes', 'per_tree', 'per_node')}
+        if st != 0 or rep != want:
+            bad('cli GapDegree', want, (st, cli.describe(exc), rep))
+        st, so, se, exc = cli.run(['treeanalysis', path, 'SentenceCount', '--src-format', 'export'])
+        m = re.search(r'^(\d+) sentences$', so, re.M)
+        if st != 0 or not m or int(m.group(1)) != nsent:
+            bad('cli SentenceCount', nsent, (st, cli.describe(exc), so[-100:]))
+        st, so, se, exc = cli.run(['treeanalysis', path, 'PosTags', '--src-format', 'export'])
+        m = re.search(r'^(\d+) different tags$', so, re.M)
+        if st != 0 or not m or int(m.group(1)) != exp['tags']:
+            bad('cli PosTags', exp['tags'], (st, cli.describe(exc), so[-100:]))
+    except Exception as e:
+        out.append({'kind': 'exception', 'where': 'treeanalysis tasks', 'case': case,
+                    'detail': '%s: %s' % (type(e).__name__, e), 'what': 'analysis task raised'})
+    os.unlink(path)
+    return out
+
+
 def check_case(case):
     with quiet():
+        if 'volume' in case:
+            return check_volume(case['volume'])
         if 'bank' in case:
             return check_bank(case['bank'])
         return check_tree(case['mt'], case.get('order'))
@@ -319,6 +382,15 @@ def check_case(case):
 def run_chunk(chunk):
     res = Result()
     with quiet():
+        if chunk['kind'] == 'volume':
+            vs = check_volume(chunk['nsent'])
+            res.evals += 1
+            res.nontrivial += 1
+            res.outcome(('volume', chunk['nsent'], len(vs)))
+            for v in vs:
+                res.violation(v['kind'], v['where'], v['case'], v['detail'], v['what'])
+            res.sample({'volume probe': '%d sentences, %d tokens' % (chunk['nsent'], 20 * chunk['nsent'])})
+            return res
         if chunk['kind'] == 'banks':
             P = pool()
             for seq in chunk['seqs']:
